@@ -5,7 +5,7 @@
    scope id (C06_invariant_needs_wf shows that the totalised model violates the invariant otherwise).
    live s tm = number of loop entries (timer heap + ready queue) carrying timer id tm. *)
 From AV Require Import Base Machine ChainSpec ChainGen ChainEq ChainFrame ChainThms ChainWalk ChainMono TimerInv TimerThms TimerOrder.
-From AV Require Import TreeStep ChainReach TimerRun TimerOwn.
+From AV Require Import TreeStep ChainReach TimerRun TimerOwn TimerWitness.
 From Coq Require Import Sorted.
 
 (* ---------------- I3: one live timer, never missed, no stray timers ---------------- *)
@@ -88,7 +88,8 @@ Proof. exact tinv_needs_wf. Qed.
 Print Assumptions C06_invariant_needs_wf.
 
 (* ---------------- never early ---------------- *)
-(* s_bydeadline is the ghost "cancelled with reason deadline"; for EVERY state and EVERY op *)
+(* s_bydeadline is the ghost "cancelled with reason deadline"; for EVERY state and EVERY op, for allocated scopes
+   (c < nscope s: an unallocated slot is overwritten by the next new scope) *)
 Theorem C06_deadline_cancel_only_when_due : forall (s : st) (o : op) (c : sid),
   c < nscope s ->
   s_bydeadline (scopes s c) = false -> s_bydeadline (scopes (fst (step s o)) c) = true ->
@@ -190,6 +191,9 @@ Proof. exact fail_at_timeout_iff'. Qed.
 Print Assumptions C06_fail_at_timeout_iff_caller_state.
 
 (* ---------------- current_effective_deadline (tie T) ---------------- *)
+(* generated = spec holds for all chains; machine = generated holds on chains of entered scopes, hence (reach_ok, see
+   the header of props/C04.v) for the walk from any task's current scope in every reachable state of the generated
+   domain *)
 Theorem C06_effective_deadline_gen_eq : forall l : list scope_rec, gen_eff_deadline l = eff_deadline_spec l.
 Proof. exact effective_deadline_gen_eq. Qed.
 Print Assumptions C06_effective_deadline_gen_eq.
@@ -278,8 +282,15 @@ Print Assumptions C06_fired_callbacks_only_by_tick.
    no_explicit_cancel c mid : mid contains no ACancel _ c / AExtCancel c            ("not also cancelled explicitly")
    no_redeadline c s2 mid   : no ASetDeadline _ c _ at a point where c is cancelled ("deadline not reassigned after it
                               has fired"), evaluated along the run.
-   Then TimeoutError IFF cancelled by its OWN deadline /\ no enclosing cancellation visible at the exit /\ the block
-   ended with AnyIO cancellations only.  The 2nd and 3rd conjunct are real: C06_t1_..., C06_t2_... below. *)
+   Hypotheses of both theorems: the whole run is wf_run, the AFailAt op was accepted (idle s1 t0), the two provisos,
+   and the exiting task is at a decision point (idle s t).
+   C06_timeout_iff_own_deadline: TimeoutError IFF the three exit guards pass /\ cancelled by its OWN deadline /\ no
+   enclosing cancellation visible at the exit /\ the block ended with AnyIO cancellations only.
+   C06_move_on_caught_iff: cancelled_caught is true after the exit IFF it was ALREADY true before the exit, or (guards
+   /\ own deadline /\ no enclosing cancellation visible /\ at least one AnyIO cancellation, alone or in a group whose
+   remainder is re-raised).
+   The extra conjuncts are real (C06_t1_..., C06_t2_... below) and so are the provisos
+   (C06_explicit_cancel_proviso_needed, C06_redeadline_proviso_needed); both sides true: C06_own_deadline_witness. *)
 Theorem C06_timeout_iff_own_deadline : forall (pre : list op) (t0 : tid) (d0 : option Z) (sh : bool) (mid : list op),
   let s1 := final step init pre in
   let c := nscope s1 in
@@ -365,3 +376,94 @@ Theorem C06_t2_group_remainder_instead_of_timeout :
   s_caught (scopes (fst (step sa (AExit 1 1 true))) 1) = true.
 Proof. exact t2_group_remainder_instead_of_timeout. Qed.
 Print Assumptions C06_t2_group_remainder_instead_of_timeout.
+
+(* ---------------- non-vacuity witnesses (vm_compute; the op lists are the Definitions named in the comments) ---------------- *)
+(* both sides of C06_timeout_iff_own_deadline true, all hypotheses met:
+   t2_mid = [ASleep 1 None; ATick 5; ARun (HTimeout 1 1)], t2_state = final step init ([ANewRoot] ++ AFailAt 1 (Some 5) false :: t2_mid) *)
+Theorem C06_own_deadline_witness :
+  let f := match k_waiter (tasks t2_state 1) with Some f => f | None => 0 end in
+  let mid := t2_mid ++ [ARun (HWake 1 f)] in
+  wf_run init ([ANewRoot] ++ AFailAt 1 (Some 5%Z) false :: mid) /\
+  idle (final step init [ANewRoot]) 1 = true /\
+  no_explicit_cancel 1 mid = true /\
+  no_redeadline 1 (fst (step (final step init [ANewRoot]) (AFailAt 1 (Some 5%Z) false))) mid = true /\
+  let s := final step (fst (step (final step init [ANewRoot]) (AFailAt 1 (Some 5%Z) false))) mid in
+  idle s 1 = true /\ snd (step s (AExit 1 1 true)) = RExc ETimeout.
+Proof. exact own_deadline_provisos_witness. Qed.
+Print Assumptions C06_own_deadline_witness.
+
+(* the proviso "not also cancelled explicitly" is needed: expl_mid = [ASleep 1 None; ANewRoot; ACancel 2 1; ATick 5],
+   expl_state = final step init ([ANewRoot] ++ AFailAt 1 (Some 5) false :: expl_mid).  cancel() at time 0 removed the
+   timer, the deadline never fires, the block is left at time 5: TimeoutError although s_bydeadline = false *)
+Theorem C06_explicit_cancel_proviso_needed :
+  let f := match k_waiter (tasks expl_state 1) with Some f => f | None => 0 end in
+  let mid := expl_mid ++ [ARun (HWake 1 f)] in
+  let s2 := fst (step (final step init [ANewRoot]) (AFailAt 1 (Some 5%Z) false)) in
+  let s := final step s2 mid in
+  wf_run init ([ANewRoot] ++ AFailAt 1 (Some 5%Z) false :: mid) /\ idle (final step init [ANewRoot]) 1 = true /\
+  no_explicit_cancel 1 mid = false /\ no_redeadline 1 s2 mid = true /\ idle s 1 = true /\
+  timers s = [] /\ s_bydeadline (scopes s 1) = false /\ s_cancelled (scopes s 1) = true /\
+  snd (step s (AExit 1 1 true)) = RExc ETimeout /\
+  s_caught (scopes (fst (step s (AExit 1 1 true))) 1) = true.
+Proof. exact explicit_cancel_proviso_needed. Qed.
+Print Assumptions C06_explicit_cancel_proviso_needed.
+
+(* the proviso "deadline not reassigned after it has fired" is needed: redl_mid = [ASleep 1 None; ATick 5;
+   ARun (HTimeout 1 1); ANewRoot; ASetDeadline 2 1 (Some 50)], redl_state likewise.  Own deadline fired, no enclosing
+   cancellation, block ended with that cancellation only -- the right-hand side holds -- but no TimeoutError *)
+Theorem C06_redeadline_proviso_needed :
+  let f := match k_waiter (tasks redl_state 1) with Some f => f | None => 0 end in
+  let mid := redl_mid ++ [ARun (HWake 1 f)] in
+  let s2 := fst (step (final step init [ANewRoot]) (AFailAt 1 (Some 5%Z) false)) in
+  let s := final step s2 mid in
+  wf_run init ([ANewRoot] ++ AFailAt 1 (Some 5%Z) false :: mid) /\ idle (final step init [ANewRoot]) 1 = true /\
+  no_explicit_cancel 1 mid = true /\ no_redeadline 1 s2 mid = false /\ idle s 1 = true /\
+  exit_guards (begin_act s 1) 1 1 = true /\ s_bydeadline (scopes s 1) = true /\ parent_visible s 1 = false /\
+  k_held (tasks s 1) = Some (ECancel 2) /\
+  snd (step s (AExit 1 1 true)) = RRet 1 /\
+  s_caught (scopes (fst (step s (AExit 1 1 true))) 1) = true.
+Proof. exact redeadline_proviso_needed. Qed.
+Print Assumptions C06_redeadline_proviso_needed.
+
+(* the cycle theorem on a cycle with two ready callbacks, the scope's own one run last:
+   cyc2_state = final step init [ANewRoot; AFailAt 1 (Some 5) false; ASleep 1 None; ANewRoot; ASleep 2 (Some 5); ATick 5],
+   cyc2_cycle = map ARun (rev (ready cyc2_state)) = [ARun (HSleepDone 5 2); ARun (HTimeout 1 1)] *)
+Theorem C06_cycle_witness :
+  (exists ops0, wf_run init ops0 /\ cyc2_state = final step init ops0) /\
+  length (ready cyc2_state) = 2 /\ In (HTimeout 1 1) (ready cyc2_state) /\
+  cyc2_cycle <> [] /\ hd (ATick 0) cyc2_cycle <> ARun (HTimeout 1 1) /\
+  s_active (scopes cyc2_state 1) = true /\ s_cancelled (scopes cyc2_state 1) = false /\
+  s_deadline (scopes cyc2_state 1) = Some 5%Z /\ (5 <= now cyc2_state)%Z /\
+  wf_run cyc2_state cyc2_cycle /\
+  (forall pre post, cyc2_cycle = pre ++ post ->
+     s_active (scopes (final step cyc2_state pre) 1) = true /\
+     s_deadline (scopes (final step cyc2_state pre) 1) = Some 5%Z) /\
+  (forall h, In h (ready cyc2_state) -> In (ARun h) cyc2_cycle) /\
+  s_cancelled (scopes (final step cyc2_state cyc2_cycle) 1) = true.
+Proof. exact cycle_witness2. Qed.
+Print Assumptions C06_cycle_witness.
+
+(* each of the four outcomes of C06_due_deadline_cancels_unless_disarmed occurs, from one start state:
+   dis_state = final step init [ANewRoot; AFailAt 1 (Some 5) false; ANewRoot; ATick 5] (callback pending, host idle) *)
+Theorem C06_disarm_outcomes_witness :
+  (exists ops0, wf_run init ops0 /\ dis_state = final step init ops0) /\
+  s_active (scopes dis_state 1) = true /\ s_cancelled (scopes dis_state 1) = false /\
+  s_deadline (scopes dis_state 1) = Some 5%Z /\ (5 <= now dis_state)%Z /\
+  (wf_run dis_state [ARun (HTimeout 1 1)] /\
+   s_cancelled (scopes (final step dis_state [ARun (HTimeout 1 1)]) 1) = true) /\
+  (wf_run dis_state [AExit 1 1 true] /\
+   s_cancelled (scopes (final step dis_state [AExit 1 1 true]) 1) = false /\
+   s_active (scopes (final step dis_state [AExit 1 1 true]) 1) = false /\
+   snd (step dis_state (AExit 1 1 true)) = RRet 0) /\
+  (wf_run dis_state [ASetDeadline 2 1 (Some 9%Z)] /\
+   s_cancelled (scopes (final step dis_state [ASetDeadline 2 1 (Some 9%Z)]) 1) = false /\
+   s_active (scopes (final step dis_state [ASetDeadline 2 1 (Some 9%Z)]) 1) = true /\
+   s_deadline (scopes (final step dis_state [ASetDeadline 2 1 (Some 9%Z)]) 1) = Some 9%Z /\
+   ready (final step dis_state [ASetDeadline 2 1 (Some 9%Z)]) = []) /\
+  (wf_run dis_state [AYield 2] /\
+   s_cancelled (scopes (final step dis_state [AYield 2]) 1) = false /\
+   s_active (scopes (final step dis_state [AYield 2]) 1) = true /\
+   s_deadline (scopes (final step dis_state [AYield 2]) 1) = Some 5%Z /\
+   In (HTimeout 1 1) (ready (final step dis_state [AYield 2]))).
+Proof. exact disarm_outcomes_witness. Qed.
+Print Assumptions C06_disarm_outcomes_witness.
